@@ -39,8 +39,15 @@ impl Engine for SmootherEngine {
                     "N" => Confirm::Nack(payload),
                     _ => return out.push("bad-op".into()),
                 };
+                // `panic N`: like `take N`, but the consumer panics while it still holds the iterator
+                // (the iterator is dropped during unwinding)
+                let panics = matches!(rest, ["panic", _]);
                 let take = match rest {
                     ["all"] => None,
+                    ["panic", n] => match n.parse::<usize>() {
+                        Ok(n) => Some(n),
+                        Err(_) => return out.push("bad-op".into()),
+                    },
                     ["take", n] => match n.parse::<usize>() {
                         Ok(n) => Some(n),
                         Err(_) => return out.push("bad-op".into()),
@@ -52,7 +59,22 @@ impl Engine for SmootherEngine {
                     None => return out.push("bad-op".into()),
                 };
                 let mut outs = Vec::new();
-                {
+                if panics {
+                    let n = take.unwrap_or(0);
+                    let outs_ref = &mut outs;
+                    let r = std::panic::catch_unwind(std::panic::AssertUnwindSafe(move || {
+                        let mut it = sm.process(c);
+                        for _ in 0..n {
+                            match it.next() {
+                                Some(c) => outs_ref.push(show(&c)),
+                                None => break,
+                            }
+                        }
+                        std::panic::resume_unwind(Box::new("consumer panics while holding the iterator"));
+                    }));
+                    let _ = r;
+                    let _ = crate::take_last_panic();
+                } else {
                     let mut it = sm.process(c);
                     match take {
                         None => {
